@@ -91,7 +91,8 @@ def ref_runs(schema, rnd, tier):
 
 
 def unknown_runs(schema, rnd, tier):
-    return [{'acts': [['NewUnknown', 'W']]}, {'acts': [['GenPeek'], ['NewUnknown', 'W']]}]
+    return [{'acts': [['NewUnknown', 'W']]}, {'acts': [['GenPeek'], ['NewUnknown', 'W']]}] + \
+        [{'acts': [['NewUnknown', 'W', how]]} for how in ('positional', 'keyword', 'all')]
 
 
 def plans():
